@@ -63,6 +63,8 @@ package mvp4
 //@ func (*CPU).Run
 //@   assume-before (*memoryManagementUnit).flush: wfMMU(m.memoryManagementUnit) && m.memoryManagementUnit.l1d.lineLength == 64 && allocated(m.memoryManagementUnit.ctx.Memory) && (forall j :: 0 <= j && j < len(m.memoryManagementUnit.l1d.lines) ==> !sameArray(m.memoryManagementUnit.l1d.lines[j].Data, m.memoryManagementUnit.ctx.Memory) && int32(m.memoryManagementUnit.l1d.lines[j].Boundary[0]) <= 1073741824)
 //@   requires m.fetchUnit != nil && m.decodeUnit != nil && m.executeUnit != nil && m.writeUnit != nil && m.decodeBus != nil && m.executeBus != nil && m.writeBus != nil && m.ctx != nil && m.memoryManagementUnit != nil
+//@   -- (C12) a run that returns without error reports a positive cycle count
+//@   ensures result1 == nil ==> result >= 1
 //@   nooverflow cycle
 //@   loop 0: invariant cycle >= 0 && m.fetchUnit != nil && m.decodeUnit != nil && m.executeUnit != nil && m.writeUnit != nil && m.decodeBus != nil && m.executeBus != nil && m.writeBus != nil && m.ctx != nil && m.memoryManagementUnit != nil
 //@   loop 0: exit writesDone(m)
